@@ -39,6 +39,7 @@ type Ev struct {
 	M       *int      `json:"m,omitempty"`
 	Illegal *bool     `json:"illegal,omitempty"`
 	Pos     *proj.Pos `json:"pos,omitempty"`
+	Want    *proj.Pos `json:"want,omitempty"` // load: what the FEN text denotes (the harness's own reading)
 	Legal   *[]int    `json:"legal,omitempty"`
 	Gen     *[]int    `json:"gen,omitempty"`
 	Acc     *[]int    `json:"acc,omitempty"`
@@ -207,6 +208,9 @@ func (r *rec) load(fen string) *board.Board {
 	r.t++
 	r.root = fen
 	e := &Ev{Ev: "load", Fen: fen}
+	if bd, stm, cr, ep, hm, fm, ok := gen.ParseCanonFEN(fen); ok {
+		e.Want = &proj.Pos{Bd: bd, Stm: stm, Cr: cr, Ep: ep, Hm: hm, Fm: fm}
+	}
 	if r.obs["canon"] {
 		e.Canon = &tru
 	}
